@@ -347,52 +347,64 @@ func main() {
 		rep.Write()
 		return
 	}
-	bound := 1
-	if f.Thorough() {
-		bound = 2
+	// quick: the three small scenarios with <=1 preemption; thorough: every scenario with <=1 preemption, then
+	// the small ones again with <=2 as far as the deadline allows (each pass reports its own cap)
+	type pass struct {
+		bound int
+		scs   []scenario
 	}
-	rep.Bounds["preemption_bound"] = bound
-	rep.Rule = fmt.Sprintf("%d scenarios: 1-2 writers (WriteRow + wait for the metadata/index event loops, as dataFamily.WriteRows) of new metrics / fields / series racing with the metadata flush event (PrepareFlush, background Flush, callback, gc of the memory metric stores) and the index flush event, on fresh real index + memory databases per execution; every schedule with <=%d preemptions at the lock / atomic / sync.Map / WaitGroup / channel operations of tsdb/memdb; after each schedule: metric id -> memory metric id -> metric store -> persisted fields, and FlushFamilyTo emits every completed (series, field). distinct = (scenario, schedule)", len(scenarios), bound)
-	for si, sc := range scenarios {
-		sc := sc
-		if only := os.Getenv("C11_ONLY"); only != "" && only != sc.Name {
-			continue
-		}
-		e := &vsched.Explorer{Bound: bound, Horizon: horizon, Body: body(sc), Shard: f.Shard, Shards: f.Shards, Deadline: f.Deadline}
-		e.Check = func(x *vsched.Result) {
-			finish(rep, sc, x)
-			if len(x.Points) > 0 {
-				rep.DistinctNontrivial++
+	small := []scenario{scenarios[1], scenarios[2], scenarios[3]}
+	passes := []pass{{1, small}}
+	if f.Thorough() {
+		passes = []pass{{1, scenarios}, {2, small}}
+	}
+	rep.Bounds["preemption_bound"] = passes[len(passes)-1].bound
+	rep.Rule = fmt.Sprintf("%d scenarios (quick: 3): 1-2 writers (WriteRow + wait for the metadata/index event loops, as dataFamily.WriteRows) of new metrics / fields / series racing with the metadata flush event (PrepareFlush, background Flush, callback, gc of the memory metric stores) and the index flush event, on fresh real index + memory databases per execution; every schedule with <=1 preemption (thorough: then <=2 for the 3 small scenarios) at the lock / atomic / sync.Map / WaitGroup / channel operations of tsdb/memdb's metadata, index, metric-store and time-series-index files; after each schedule: metric id -> memory metric id -> metric store -> persisted fields, and FlushFamilyTo emits every completed (series, field). distinct = (scenario, bound, schedule)", len(scenarios))
+	first := true
+	for _, ps := range passes {
+		for _, sc := range ps.scs {
+			sc := sc
+			if only := os.Getenv("C11_ONLY"); only != "" && only != sc.Name {
+				continue
 			}
-		}
-		e.Discard = cleanup
-		if si == 0 && f.Shard == 0 {
-			a := vsched.Run(nil, horizon, body(sc))
-			cleanup(a)
-			b := vsched.Run(nil, horizon, body(sc))
-			cleanup(b)
-			if len(a.Points) != len(b.Points) || a.Steps != b.Steps {
-				vevid.Fatal("nondeterministic replay: %d/%d points, %d/%d steps", len(a.Points), len(b.Points), a.Steps, b.Steps)
+			e := &vsched.Explorer{Bound: ps.bound, Horizon: horizon, Body: body(sc), Shard: f.Shard, Shards: f.Shards, Deadline: f.Deadline}
+			e.Check = func(x *vsched.Result) {
+				finish(rep, sc, x)
+				if len(x.Points) > 0 {
+					rep.DistinctNontrivial++
+				}
 			}
-			rep.Extra["determinism_replay"] = "ok"
-		}
-		e.Explore()
-		if e.Diverged != "" {
-			vevid.Fatal("replay divergence in %s: %s", sc.Name, e.Diverged)
-		}
-		if e.Capped {
-			rep.Cap("deadline reached in scenario " + sc.Name)
-		}
-		rep.Evaluations += e.Executions
-		rep.States += e.Executions
-		rep.Transitions += e.Points
-		rep.TracesValidated += e.Executions
-		rep.Count("schedules["+sc.Name+"]", e.Executions)
-		if mp, _ := rep.Extra["max_points_in_one_schedule"].(int); e.MaxPoints > mp {
-			rep.Extra["max_points_in_one_schedule"] = e.MaxPoints
-		}
-		if f.Shard == 0 {
-			rep.Sample(map[string]interface{}{"scenario": sc, "schedules_this_worker": e.Executions})
+			e.Discard = cleanup
+			if first && f.Shard == 0 {
+				a := vsched.Run(nil, horizon, body(sc))
+				cleanup(a)
+				b := vsched.Run(nil, horizon, body(sc))
+				cleanup(b)
+				if len(a.Points) != len(b.Points) || a.Steps != b.Steps {
+					vevid.Fatal("nondeterministic replay: %d/%d points, %d/%d steps", len(a.Points), len(b.Points), a.Steps, b.Steps)
+				}
+				rep.Extra["determinism_replay"] = "ok"
+			}
+			first = false
+			e.Explore()
+			if e.Diverged != "" {
+				vevid.Fatal("replay divergence in %s: %s", sc.Name, e.Diverged)
+			}
+			key := fmt.Sprintf("%s,bound=%d", sc.Name, ps.bound)
+			if e.Capped {
+				rep.Cap("deadline reached in " + key)
+			}
+			rep.Evaluations += e.Executions
+			rep.States += e.Executions
+			rep.Transitions += e.Points
+			rep.TracesValidated += e.Executions
+			rep.Count("schedules["+key+"]", e.Executions)
+			if mp, _ := rep.Extra["max_points_in_one_schedule"].(int); e.MaxPoints > mp {
+				rep.Extra["max_points_in_one_schedule"] = e.MaxPoints
+			}
+			if f.Shard == 0 {
+				rep.Sample(map[string]interface{}{"scenario": sc, "bound": ps.bound, "schedules_this_worker": e.Executions})
+			}
 		}
 	}
 	rep.Write()
